@@ -356,6 +356,10 @@ def split_case(draw):
     c["back"] = False
     h = c["h"]
     N = draw(st.integers(9, 160))  # span on the integration grid, >= 8 steps
+    if draw(st.integers(0, 2)) == 0:
+        # a span covered in fewer than 8 integration steps: the library refuses to re-sample it (C08's listed finding
+        # keplernum-short-span) - a refusal is accepted here, an answer has to be right
+        N = draw(st.integers(2, 8))
     c["N"] = N
     # output step: a divisor-free choice; target = m * s_out inside the span
     s_out = draw(st.integers(3, 3 * h))
@@ -395,29 +399,36 @@ def check_split(case):
     # (b) iterate with another output step over an on-grid span
     found = None
     span = dict(start=mkdate(t0 * 10**6), stop=timedelta(seconds=N * h), step=timedelta(seconds=s_out))
-    if route == "iter":
-        stream = orb.iter(**span)
-    elif route == "iter-no-start":  # the start defaults to the orbit's own date; the stop given as a date
-        stream = orb.iter(stop=mkdate(N * h * 10**6), step=timedelta(seconds=s_out))
-    elif route == "ephemeris":
-        stream = orb.ephemeris(**span)
-    elif route == "daterange":
-        from beyond.dates import Date
+    try:
+        if route == "iter":
+            stream = orb.iter(**span)
+        elif route == "iter-no-start":  # the start defaults to the orbit's own date; the stop given as a date
+            stream = orb.iter(stop=mkdate(N * h * 10**6), step=timedelta(seconds=s_out))
+        elif route == "ephemeris":
+            stream = orb.ephemeris(**span)
+        elif route == "daterange":
+            from beyond.dates import Date
 
-        stream = orb.iter(dates=Date.range(mkdate(t0 * 10**6), mkdate((t0 + N * h) * 10**6), timedelta(seconds=s_out), inclusive=True))
-    elif route == "ephem":
-        stream = iter(orb.ephem(**span))
-    else:  # the tabulated ephemeris interpolated at the date (a second re-sampling: its own remainder is added)
-        eph = orb.ephem(**span)
-        stream = [eph.propagate(date)] if len(eph) >= 8 else orb.iter(**span)
-    for p_ in stream:
-        if p_.date == date:
-            found = pos(p_)
-            break
+            stream = orb.iter(dates=Date.range(mkdate(t0 * 10**6), mkdate((t0 + N * h) * 10**6), timedelta(seconds=s_out), inclusive=True))
+        elif route == "ephem":
+            stream = iter(orb.ephem(**span))
+        else:  # the tabulated ephemeris interpolated at the date (a second re-sampling: its own remainder is added)
+            eph = orb.ephem(**span)
+            stream = [eph.propagate(date)] if len(eph) >= 8 else orb.iter(**span)
+        for p_ in stream:
+            if p_.date == date:
+                found = pos(p_)
+                break
+    except ValueError as exc:
+        if N <= 8 and "impossible to interpolate" in str(exc):
+            return dict(nt=False, cls=label_cls(case) + [case["method"], "short-span-refused"], ratio=worst)
+        raise
     if found is None:
         raise Violation("iter-missing-date", f"{route}(step={s_out}s) over {N * h}s never yielded t={T}s")
     d = float(np.linalg.norm(found[:3] - direct[:3]))
-    tol_b = interp * (1 if not adaptive else 1) + (0.0 if not adaptive else 2 * 10 * 1e-3 * ((abs(t0) + T) / h + 8))
+    # (a table of at most a dozen nodes: the tabulation and the direct request both interpolate at the edge of
+    #  their own 8-node window - two independent remainders)
+    tol_b = interp * (4 if N <= 12 else 1) + (0.0 if not adaptive else 2 * 10 * 1e-3 * ((abs(t0) + T) / h + 8))
     if k0 < 0 and not adaptive:
         # the direct request integrates backward from the orbit's date, the tabulation backward to its start and then
         # forward: two different discrete paths, each within the method's own bound (C_ABS, facet `order`)
@@ -516,5 +527,5 @@ FACETS = [
     Facet("invariants", lambda s, t: inv_case(), check_invariants, setup=setup, shrink_quick=False,
           rule="every case", quick=(8, 25), thorough=(16, 300)),
     Facet("split", lambda s, t: split_case(), check_split, setup=setup, shrink_quick=False,
-          rule="target date off the integration grid", quick=(8, 40), thorough=(16, 500)),
+          rule="target date off the integration grid", quick=(12, 50), thorough=(16, 500)),
 ]
